@@ -8,11 +8,13 @@ import sys
 from core import MODEL_NAMES, model_class
 
 PLAYER_KINDS = ["int", "float", "bool", "None", "str", "tuple", "list", "dict", "object", "duck", "teamrating",
-                "class", "model", "function", "exception", "generator", "bytes", "frozenset_of_ratings", "range", "module", "nested_team"]
-TEAM_KINDS = ["tuple", "None", "int", "str", "dict", "bare_rating", "empty", "userlist",
+                "class", "model", "function", "exception", "generator", "bytes", "frozenset_of_ratings", "range", "module", "nested_team",
+                "namespace", "bytearray", "memoryview"]
+TEAM_KINDS = ["tuple", "None", "int", "str", "dict", "bare_rating", "empty", "userlist", "chainmap", "bytearray",
               "deque", "namedtuple", "dict_values", "map", "str1", "bytes", "generator", "set"]
 TEAMS_KINDS = ["tuple", "dict", "frozenset", "str", "int", "None", "generator", "len0", "len1", "userlist", "deque", "dict_values", "map"]
-SEL_NONLIST = ["int", "float", "str", "tuple", "dict", "set", "bytes", "range", "True", "array", "deque", "generator", "map", "dict_values"]
+SEL_NONLIST = ["int", "float", "str", "tuple", "dict", "set", "bytes", "range", "True", "array", "deque", "generator", "map", "dict_values",
+               "bytearray", "memoryview", "userlist"]
 SEL_ELEM = ["str", "None", "list", "tuple", "dict", "object", "bytes", "class"]
 CALLS = ["rate", "win", "draw", "rank"]
 
@@ -141,6 +143,12 @@ def _player_value(kind, model_name, like, team):
         return sys
     if kind == "nested_team":
         return list(team)
+    if kind == "namespace":
+        return __import__("types").SimpleNamespace(mu=mu, sigma=sigma, id="ns", name=None)
+    if kind == "bytearray":
+        return bytearray(b"rating")
+    if kind == "memoryview":
+        return memoryview(b"rating")
     raise ValueError(kind)
 
 
@@ -161,6 +169,9 @@ def _sel_nonlist(kind, n):
         "generator": (v for v in valid),
         "map": map(float, valid),
         "dict_values": {i: v for i, v in enumerate(valid)}.values(),
+        "bytearray": bytearray(valid),
+        "memoryview": memoryview(bytes(valid)),
+        "userlist": __import__("collections").UserList(valid),
     }[kind]
 
 
@@ -244,6 +255,10 @@ def build_call(desc, model_name, teams):
             t[i] = __import__("collections").deque(t[i])
         elif kind == "userlist":
             t[i] = __import__("collections").UserList(t[i])
+        elif kind == "chainmap":
+            t[i] = __import__("collections").ChainMap({j: p for j, p in enumerate(t[i])})
+        elif kind == "bytearray":
+            t[i] = bytearray(b"\x01\x02")
         elif kind == "namedtuple":
             t[i] = __import__("collections").namedtuple("Team", ["p%d" % j for j in range(len(t[i]))])(*t[i])
         elif kind == "dict_values":
@@ -347,6 +362,9 @@ def wellformed_twins(n):
         ("ranks_2pow1024", {"ranks": [2 ** 1024 + i for i in idx]}),
         ("scores_10pow400_mixed", {"scores": [[10 ** 400, 3, 7.5][i % 3] + (i // 3) for i in idx]}),
         ("ranks_negative_huge_int", {"ranks": [-(10 ** 320) * (i + 1) for i in idx]}),
+        ("ranks_bool_and_float", {"ranks": [[True, 0.5, False, 2.5][i % 4] for i in idx]}),
+        ("ranks_integral_floats_above_2pow53", {"ranks": [float(2 ** 53 + 2 * i) for i in idx]}),
+        ("scores_integral_floats_negative_big", {"scores": [-float(2 ** 60) * (i + 1) for i in idx]}),
         ("ranks_1e308", {"ranks": [1e308 - i * 1e292 for i in idx]}),
         ("ranks_17_digits", {"ranks": [0.12345678901234567 + i * 1.0000000000000002 for i in idx]}),
         ("ranks_true_and_one", {"ranks": [[True, 1, 2][i % 3] for i in idx]}),
